@@ -223,6 +223,7 @@ RetTags(r) ==
       goal == Max2(opt, primalMax)
       own == r.has_value /\ (primalMax = NegInf \/ val > primalMax)
   IN Tag(r.panicked, "C04 maximize-panicked")
+     \cup Tag(r.panicked /\ cfg.dom, "C10 panic") \cup Tag(r.panicked /\ cfg.cache /\ ~cfg.dom, "C09 panic")
      \cup (IF r.panicked THEN {} ELSE
            Tag(r.has_value # r.sol.some, "C02 solution-iff-value")
       \cup Tag(r.has_value /\ (r.best_value # r.best_lb \/ r.cval # r.best_value), "C02 value-lb-completion-differ")
